@@ -5,6 +5,7 @@
 //! their variable and fixed forms. The circuit is built directly from the
 //! public chip constructors, the way `ZkStdLib::configure` does.
 use ff::Field;
+use midnight_circuits::instructions::ControlFlowInstructions;
 use midnight_circuits::{
     field::{
         decomposition::{chip::P2RDecompositionChip, pow2range::Pow2RangeChip},
@@ -50,6 +51,8 @@ pub const NG_OPS: &[&str] = &[
     "ng.bound_then_byte",
     "ng.bound_then_bit",
     "ng.bound_then_bound",
+    "ng.select_then_bound",
+    "ng.select_then_byte",
     "ng.rem_then_byte",
 ];
 
@@ -154,6 +157,23 @@ pub fn gen_case(rng: &mut Prng, op: &str) -> OpCase {
                 _ => rng.below(b.max(1) + 2),
             };
             ins = vec![Fq::from(x)];
+        }
+        "select_then_bound" | "select_then_byte" => {
+            // two cells with bounds of their own, a select between them, then a bound (or a
+            // byte conversion) of the result: bounds are cached per cell
+            let b1 = *rng.pick(&[2u64, 100, 256, 300, 512, 1 << 20]);
+            let b2 = *rng.pick(&[2u64, 100, 256, 300, 512, 1 << 20]);
+            let b3 = *rng.pick(&[2u64, 100, 255, 256, 300, 512]);
+            big.push(format!("{b1:x}"));
+            big.push(format!("{b2:x}"));
+            big.push(format!("{b3:x}"));
+            let val = |rng: &mut Prng, b: u64| match rng.below(4) {
+                0 => b - 1,
+                1 => 0,
+                _ => rng.below(b),
+            };
+            let (x, y) = (val(rng, b1), val(rng, b2));
+            ins = vec![Fq::from(rng.below(2)), Fq::from(x), Fq::from(y)];
         }
         "rem_then_byte" => {
             let d = *rng.pick(&[2u64, 7, 255, 256, 257, 300, 511, 1000]);
@@ -301,6 +321,21 @@ fn body<L: Layouter<F>>(c: &OpCase, ng: &NG, l: &mut L, w: &[Value<F>]) -> Resul
                 }
             }
         }
+        "select_then_bound" | "select_then_byte" => {
+            let cnd: AssignedBit<F> = ng.assign(l, w[0].map(|v| v != Fq::ZERO))?;
+            let x: AssignedNative<F> = ng.assign(l, w[1])?;
+            let y: AssignedNative<F> = ng.assign(l, w[2])?;
+            ng.assert_lower_than_fixed(l, &x, &c.bigp(0))?;
+            ng.assert_lower_than_fixed(l, &y, &c.bigp(1))?;
+            let z = ng.select(l, &cnd, &x, &y)?;
+            if name == "select_then_bound" {
+                ng.assert_lower_than_fixed(l, &z, &c.bigp(2))?;
+                vec![bit_n(&cnd), x, y, z]
+            } else {
+                let b: AssignedByte<F> = ng.convert(l, &z)?;
+                vec![bit_n(&cnd), x, y, z, byte_n(&b)]
+            }
+        }
         "rem_then_byte" => {
             let y: AssignedNative<F> = ng.assign(l, w[0])?;
             let r = ng.rem(l, &y, c.bigp(0), Some(BigUint::from(u64::MAX)))?;
@@ -388,6 +423,28 @@ pub fn check(c: &OpCase, publics: &[Fq]) -> Result<bool, String> {
                 Err(format!("conversion of {} published as {}", v[0], v[1]))
             }
         }
+        "select_then_bound" | "select_then_byte" => {
+            let want = if name == "select_then_bound" { 4 } else { 5 };
+            if v.len() != want {
+                return Err(format!("{} values published, {want} expected", v.len()));
+            }
+            let one = BigUint::from(1u32);
+            if v[0] > one || v[1] >= c.bigp(0) || v[2] >= c.bigp(1) {
+                return Ok(false);
+            }
+            let z = if v[0] == one { v[1].clone() } else { v[2].clone() };
+            if v[3] != z {
+                return Err(format!("select({}, {}, {}) published as {}", v[0], v[1], v[2], v[3]));
+            }
+            let lim = if name == "select_then_bound" { c.bigp(2) } else { BigUint::from(256u32) };
+            if z >= lim {
+                return Ok(false);
+            }
+            if name == "select_then_byte" && v[4] != z {
+                return Err(format!("conversion of {z} published as {}", v[4]));
+            }
+            Ok(true)
+        }
         "bound_then_bound" => Ok(v.len() == 1 && v[0] < c.bigp(0) && v[0] < c.bigp(1)),
         "rem_then_byte" => {
             if v.len() != 3 {
@@ -423,6 +480,11 @@ pub fn expected_admissible(c: &OpCase) -> bool {
         "bound_then_bit" => x[0] < c.bigp(0) && x[0] < BigUint::from(2u32),
         "bound_then_bound" => x[0] < c.bigp(0) && x[0] < c.bigp(1),
         "rem_then_byte" => &x[0] % c.bigp(0) < BigUint::from(256u32),
+        "select_then_bound" | "select_then_byte" => {
+            let z = if x[0] == BigUint::from(1u32) { &x[1] } else { &x[2] };
+            let lim = if name == "select_then_bound" { c.bigp(2) } else { BigUint::from(256u32) };
+            x[1] < c.bigp(0) && x[2] < c.bigp(1) && *z < lim
+        }
         _ => true,
     }
 }
